@@ -78,7 +78,7 @@ Reps(m, pos) == IF pos > MaxAr(m) THEN {EAX, I1}
                 ELSE CASE Fam(m) = "br" -> BrReps [] Fam(m) = "x87" -> X87Reps [] Fam(m) = "simd" -> SimdReps [] OTHER -> IntReps
 \* ---------------------------------------------------------------- sweeps
 Bases == {-1, 0, 3, 4, 5}
-IdxSc == {<<-1, 1>>, <<6, 1>>, <<6, 2>>, <<0, 4>>, <<5, 8>>, <<3, 1>>}
+IdxSc == {<<-1, 1>>, <<6, 1>>, <<6, 2>>, <<0, 4>>, <<5, 8>>, <<3, 1>>, <<3, 2>>}
 Disps == {Z4, D(4), DNeg(1), D(127), D(128), DNeg(128), DNeg(129), <<255,255,255,127>>, <<0,0,0,128>>}
 MemForms(szs) == {Mem(sz, sg, b, x[1], x[2], d, "") : sz \in szs, sg \in {"", "fs"}, b \in Bases, x \in IdxSc, d \in Disps}
 Line(m, ops) == [mn |-> m, ops |-> ops]
